@@ -3,6 +3,7 @@
 package jtp
 
 import (
+	"syscall"
 	"time"
 )
 
@@ -24,4 +25,16 @@ func VerifSetCache(capacity int) {
 // VerifSetTimeout sets the configured network timeout.
 func VerifSetTimeout(d time.Duration) {
 	dialer.Timeout = d
+}
+
+// VerifSmallSendBuffer makes every connection dialled from now on use a send buffer of a few kilobytes (so that a
+// long request to a peer that does not read cannot be written), or puts the default back.
+func VerifSmallSendBuffer(on bool) {
+	if !on {
+		dialer.Control = nil
+		return
+	}
+	dialer.Control = func(network, address string, c syscall.RawConn) error {
+		return c.Control(func(fd uintptr) { syscall.SetsockoptInt(int(fd), syscall.SOL_SOCKET, syscall.SO_SNDBUF, 4096) })
+	}
 }
